@@ -177,7 +177,9 @@ def approxPenetranceTest (t : Thresholds) (nValid : Nat) (g : List GeneScore) :
   | .error e => .error e
   | .ok d =>
     let absValid := d.map (fun x => decide (x.distSq < absEps))
-    if absValid.count true ≥ nV then .ok absValid
+    if absValid.count true ≥ nV then
+      -- `np.logical_and(absolutely_valid, np.logical_not(distances['invalid']))`
+      .ok (d.map (fun x => decide (x.distSq < absEps) && !x.invalid))
     else
       match kth (d.map (·.q1)) (nV - 1), kth (d.map (·.qdiff)) (nV - 1), kth (d.map (·.fold)) (nV - 1) with
       | some c1, some c2, some c3 =>
@@ -351,13 +353,16 @@ def pValuesWorkerRow (r16 : Rat → Rat) (t : Thresholds) (praw : List Rat) (g :
   pValuesWorkerRowWith (argsort (gather (interestingIdx praw t.pTh) praw)) r16 t praw g
 
 /-- the consecutive-pairs test of both mask-route workers:
-`delta = np.unique(np.diff(idx_values)); len(delta) != 1 or delta[0] != 1` -/
+`delta = np.unique(np.diff(idx_values));
+len(idx_values) > 1 and (len(delta) != 1 or delta[0] != 1)` -/
 def consecutiveCheck (idx : List Nat) : Except Err Unit :=
   let diffs : List Int := List.zipWith (fun (a b : Nat) => (b : Int) - (a : Int)) idx idx.tail
   let uniq := diffs.eraseDups
-  match uniq with
-  | [d] => if d = 1 then .ok () else .error .nonConsecutive
-  | _ => .error .nonConsecutive
+  if idx.length > 1 then
+    match uniq with
+    | [d] => if d = 1 then .ok () else .error .nonConsecutive
+    | _ => .error .nonConsecutive
+  else .ok ()
 
 /-- `eps = 1.0e-6` in `_get_validity_mask` -/
 def maskEps : Rat := 1 / 1000000
@@ -365,6 +370,7 @@ def maskEps : Rat := 1 / 1000000
 /-- `_get_validity_mask` -/
 def getValidityMask (nValid nGenes : Nat) (row : List (Nat × Rat)) (geneIdx : Option (List Nat)) :
     Except Err (List Bool) :=
+  let nValid := min nValid nGenes        -- `n_valid = min(n_valid, n_genes)`
   let genes := List.range nGenes
   let pMask := genes.map (fun i => (row.lookup i).isSome)
   let dist0 := genes.map (fun i => let d := (row.lookup i).getD 0; if d < 0 then 0 else d)
